@@ -1,6 +1,6 @@
 SPECIFICATION Spec
 CONSTANTS
-  MaxKeys = 4
+  MaxKeys = 3
   MaxPage = 2
   Export = TRUE
 INVARIANT Inv_Result
